@@ -393,7 +393,7 @@ class ParseAPI(object):
         Return a :class:`Key <pycoin.key.Key>` or None.
         """
         pair = parse_colon_prefix(s)
-        if pair is not None and pair[0] == self._wif_prefix:
+        if pair is not None and self._sec_prefix == pair[0] + ":":
             s = pair[1]
         try:
             sec = h2b(s)
